@@ -53,6 +53,29 @@ CLAIMS = {
              "which is argued in DESIGN, not mechanised.",
         technique="ledger-delta summaries from MIR write shapes + dominance + guard reachability + lockfile pin",
         ref="6/C18"),
+    "C16": dict(
+        text="Decides per-operation mirror agreement: for each of the 9 bSei variants the multiset of reward messages "
+             "{Increase|Decrease(address, amount)} equals the cw20 ledger's balance deltas (account, sign, amount) read from the MIR "
+             "write shapes; mirror messages precede the receive hook; the reward side applies the same signed amount to the holder "
+             "record keyed by the message address and to total_balance; the message target is the dispatcher-configured reward "
+             "contract. Equality of the two stores in every reachable state follows by induction over operations (argued, not mechanised).",
+        technique="ledger-delta summaries vs emitted-message multiset (sibling agreement) on MIR",
+        ref="6/C16"),
+    "C14": dict(
+        text="Decides only the structural clauses: ClaimRewards decrements the recorded balance by exactly what it sends (the whole-unit "
+             "part of accrued + pending of the caller's record), keeps exactly the fractional remainder, advances the holder index, "
+             "writes nothing before the non-zero test; UpdateGlobalIndex computes new rewards as own balance minus recorded balance, "
+             "records the balance, divides by total_balance and writes nothing when no one holds bSei. NOT decided: the inequalities "
+             "sum(claimable) <= recorded <= actual and the dust bounds (numeric over populations).",
+        technique="operand-role pattern matching on normalised MIR value expressions + guarded-site reachability",
+        ref="6/C14"),
+    "C15": dict(
+        text="Decides only settle-before-mutate and operand roles: balance-changing messages add to pending the accrual computed from the "
+             "holder's previous balance and index (flow-sensitive reaching definitions make a reordering visible), advance the index, "
+             "then change the balance; every accrual is (global - holder index) x holder balance of one record keyed by the right "
+             "address. NOT decided: proportionality and independence (relational, numeric).",
+        technique="flow-sensitive value provenance (reaching definitions) + operand-role matching",
+        ref="6/C15"),
 }
 
 NA = {
